@@ -2,6 +2,7 @@ package main
 
 import (
 	"fmt"
+	"go/types"
 	"strings"
 
 	"golang.org/x/tools/go/ssa"
@@ -21,6 +22,8 @@ func runC13(c *Ctx) {
 	ruleWhoMayAuthorise(c, "R13.d")
 	ruleAccessorsReadReceiver(c)
 	ruleNoForeignMutation(c)
+	ruleRefusalIsAnError(c, "R13.g")
+	ruleAuthenticatorsReadOnly(c, "R13.h")
 	c.assume("applications do not mutate *Conn values obtained from Server.Conns()")
 }
 
@@ -373,5 +376,72 @@ func ruleNoForeignMutation(c *Ctx) {
 	}
 	if bad == 0 {
 		c.ok(rid, "no-foreign-mutation", "", fmt.Sprintf("%d functions reachable from the API roots; none mutates per-connection state", nfun))
+	}
+}
+
+// ruleRefusalIsAnError: the executors take a nil error from a handler as "the command succeeded"
+// and only then apply its per-connection effect (SELECT stores the database id on err == nil).
+// The framework's own handler implementations must therefore never report a refusal through
+// the reply alone: a return of (error message, nil) would let the effect happen although the
+// client was told the command failed.
+func ruleRefusalIsAnError(c *Ctx, rid string) {
+	c.rule(rid, "no method of *redis.Server implementing SystemCommandHandler or AuthCommandHandler returns an error-type message together with a nil error; per-connection effects in executors (SetDatabase) are dominated by the nil test of the handler's error")
+	sp := c.P.SSAPkgs[pkgRedis]
+	methods := map[string]bool{}
+	for _, in := range []string{"SystemCommandHandler", "AuthCommandHandler"} {
+		if t := sp.Type(in); t != nil {
+			if it, ok := t.Type().Underlying().(*types.Interface); ok {
+				for i := 0; i < it.NumMethods(); i++ {
+					methods[it.Method(i).Name()] = true
+				}
+			}
+		}
+	}
+	n := 0
+	for _, name := range sortedKeys(methods) {
+		fn := c.P.Method(pkgRedis, "Server", name)
+		if fn == nil || fn.Blocks == nil {
+			continue
+		}
+		n++
+		c.analysed(fn)
+		bad := ""
+		for _, r := range returnsOf(fn) {
+			if len(r.Results) != 2 || !isNilConst(retOperand(r, 1)) {
+				continue
+			}
+			if call, ok := strip(retOperand(r, 0)).(*ssa.Call); ok {
+				sum := summarizeMsgValue(call, map[*ssa.Parameter]*sval{}, 0)
+				isErrMsg := strings.Contains(calleeName(call.Common()), "NewError")
+				if sum.OK && sum.Typ != nil && sum.Typ.Kind == "const" {
+					if k, ok := constInt(sum.Typ.C); ok {
+						tt := readTypeTables(c.P)
+						isErrMsg = k == tt.consts["ErrorMessage"]
+					}
+				}
+				if isErrMsg {
+					bad = fmt.Sprintf("the handler returns an error reply with a nil error at %s: the executor treats the command as successful and applies its effect on the connection", c.P.instrPos(r))
+				}
+			}
+		}
+		c.check(bad == "", rid, "Server."+name+"/refusal", c.P.pos(fn.Pos()), "refusals are signalled by the error result", bad)
+	}
+	c.count("framework-handler-methods", n)
+	c.floor("framework-handler-methods", 4)
+	// the executor side: SetDatabase under err == nil of the handler call
+	for _, site := range c.P.staticCallSites(c.P.Method(pkgRedis, "Conn", "SetDatabase")) {
+		fn := site.Parent()
+		if !inFramework(fn) {
+			continue
+		}
+		okDom := false
+		for _, at := range factsAt(site.Block()) {
+			if ex, ok := at.X.(*ssa.Extract); ok && at.Kind == "nil" && at.Pos && ex.Index == 1 {
+				if hc, ok := ex.Tuple.(*ssa.Call); ok && hc.Common().IsInvoke() {
+					okDom = true
+				}
+			}
+		}
+		c.check(okDom, rid, c.P.key(fn)+"/SetDatabase", c.P.instrPos(site), "the database id is stored only where the handler's error is nil", "the database id is stored on the connection without the handler's error having been tested nil")
 	}
 }
